@@ -47,24 +47,56 @@ class Module:
         self.src = open(path).read()
         self.funcs = {}
         self.structs = {}
-        for m in re.finditer(r'^(%[\w.]+) = type \{(.*?)\}', self.src, re.M):
-            self.structs[m.group(1)] = [x.strip() for x in m.group(2).split(',')]
+        for m in re.finditer(r'^(%[\w.]+) = type (<?\{.*\}>?)$', self.src, re.M):
+            body = m.group(2)
+            inner = body[2:-2] if body.startswith('<{') else body[1:-1]
+            self.structs[m.group(1)] = [x.strip() for x in self._split(inner) if x.strip()]
+        for m in re.finditer(r'^(%[\w.]+) = type opaque', self.src, re.M):
+            self.structs[m.group(1)] = []
         for m in re.finditer(r'^define [^\n]*?@([\w.]+)\((.*?)\)[^\n]*\{\n(.*?)^\}', self.src, re.S | re.M):
             self.funcs[m.group(1)] = self._parse(m.group(2), m.group(3))
 
-    def sizeof(self, t):
+    def layout(self, t):
+        """(size, alignment, field offsets or None) with natural alignment (x86-64 data layout)"""
         t = t.strip()
         if t.endswith('*'):
-            return 8
+            return 8, 8, None
         m = re.fullmatch(r'i(\d+)', t)
         if m:
-            return max(1, int(m.group(1)) // 8)
+            n = max(1, (int(m.group(1)) + 7) // 8)
+            return n, min(n, 8), None
+        if t == 'float':
+            return 4, 4, None
+        if t == 'double':
+            return 8, 8, None
         m = re.fullmatch(r'\[(\d+) x (.+)\]', t)
         if m:
-            return int(m.group(1)) * self.sizeof(m.group(2))
+            sz, al, _ = self.layout(m.group(2))
+            return int(m.group(1)) * sz, al, None
         if t in self.structs:
-            return sum(self.sizeof(x) for x in self.structs[t])     # the structs used here have no padding
-        raise Unsupported('sizeof ' + t)
+            fields = self.structs[t]
+        elif t.startswith('{') and t.endswith('}'):
+            fields = [x.strip() for x in self._split(t[1:-1]) if x.strip()]
+        elif t.startswith('<{') and t.endswith('}>'):
+            fields = [x.strip() for x in self._split(t[2:-2]) if x.strip()]
+            off, offs = 0, []
+            for f in fields:
+                offs.append(off)
+                off += self.layout(f)[0]
+            return off, 1, offs
+        else:
+            raise Unsupported('layout of ' + t)
+        off, al, offs = 0, 1, []
+        for f in fields:
+            sz, a, _ = self.layout(f)
+            off = (off + a - 1) // a * a
+            offs.append(off)
+            off += sz
+            al = max(al, a)
+        return (off + al - 1) // al * al, al, offs
+
+    def sizeof(self, t):
+        return self.layout(t)[0]
 
     def _parse(self, params, body):
         names = []
@@ -207,7 +239,8 @@ class Interp:
         self.stats = {'paths': 0, 'queries': 0, 'instr': 0, 'solver_s': 0.0}
         self.budget = budget
         self.deadline = time.time() + timeout if timeout else None
-        self.globals = {}
+        self.globals = {}      # name -> address of the global's cell (see bind_global)
+        self.externs = {}      # name -> callable(interp, args, mem, cond) -> value or None
 
     def feasible(self, cond, extra):
         t0 = time.perf_counter()
@@ -243,8 +276,10 @@ class Interp:
             return bv(0, width(t))
         if re.fullmatch(r'-?\d+', tok):
             return bv(int(tok), width(t))
+        if tok.startswith('@') and tok[1:] in self.globals:
+            return bv(self.globals[tok[1:]], 64)
         if tok.startswith('@') or tok.startswith('getelementptr') or tok.startswith('bitcast'):
-            return bv(0xdead0000, 64)      # address of a constant (only passed to __assert_fail)
+            return bv(0xdead0000, 64)      # address of a constant (only passed to __assert_fail / message arguments)
         raise Unsupported('operand ' + tok)
 
     def run(self, fname, args, mem, pre=()):
@@ -382,22 +417,22 @@ class Interp:
                     if am:
                         cur = am.group(2)
                         addr = addr + v * self.m.sizeof(cur)
-                    elif cur in self.m.structs:
+                    elif cur in self.m.structs or cur.startswith('{'):
                         k = self.conc(v)
-                        fields = self.m.structs[cur]
-                        addr = addr + sum(self.m.sizeof(x) for x in fields[:k])
+                        fields = self.m.structs[cur] if cur in self.m.structs else [x.strip() for x in Module._split(cur[1:-1])]
+                        addr = addr + self.m.layout(cur)[2][k]
                         cur = fields[k]
                     else:
                         raise Unsupported('gep into ' + cur)
             env[m.group(1)] = z3.simplify(addr)
             return None
-        m = re.match(r'(%[\w.]+) = load (\S+), \S+ (%[\w.]+)', ins)
+        m = re.match(r'(%[\w.]+) = load (\S+), \S+ (%[\w.]+|@[\w.]+)', ins)
         if m:
-            env[m.group(1)] = mem.load(self.conc(env[m.group(3)]), self.m.sizeof(m.group(2)))
+            env[m.group(1)] = mem.load(self.conc(self.val(env, m.group(3), 'i64')), self.m.sizeof(m.group(2)))
             return None
-        m = re.match(r'store (\S+) ([^,]+), \S+ (%[\w.]+)', ins)
+        m = re.match(r'store (\S+) ([^,]+), \S+ (%[\w.]+|@[\w.]+)', ins)
         if m:
-            mem.store(self.conc(env[m.group(3)]), self.m.sizeof(m.group(1)), self.val(env, m.group(2), m.group(1)))
+            mem.store(self.conc(self.val(env, m.group(3), 'i64')), self.m.sizeof(m.group(1)), self.val(env, m.group(2), m.group(1)))
             return None
         m = re.match(r'(%[\w.]+) = alloca (.+?), align', ins)
         if m:
@@ -468,6 +503,9 @@ class Interp:
             args = []
             for a in Module._split(argstr):
                 a = re.sub(r'\b(noundef|nonnull|noalias|nocapture|readonly|writeonly|signext|zeroext|align \d+|dereferenceable\(\d+\))\b', '', a).strip()
+                if 'getelementptr' in a or 'bitcast (' in a or 'inttoptr (' in a:
+                    args.append(bv(0xdead0000, 64))     # constant expression (string literal address)
+                    continue
                 t, _, v = a.rpartition(' ')
                 args.append(self.val(env, v, t.strip() or 'i64'))
             if name.startswith('llvm.memcpy') or name.startswith('llvm.memmove'):
@@ -479,6 +517,11 @@ class Interp:
                 return None
             if name == 'free':
                 mem.free(self.conc(args[0]))
+                return None
+            if name in self.externs:
+                r = self.externs[name](self, args, mem, cond)
+                if dest is not None:
+                    env[dest] = r
                 return None
             if name in self.m.funcs:
                 names, blocks, entry = self.m.funcs[name]
